@@ -46,6 +46,8 @@ var Corpus = []string{
 	// one object-valued field selected on the interface and again under each concrete type (three selections, so the
 	// parsed selection set has spare capacity), in a list whose elements have different concrete types
 	`query Op { nodes { link { a1 a2 inl } ... on A { link { name } } ... on B { link { id } } } }`,
+	// the same sub-paths under two root response keys: a failure under one must not hide the report of another
+	`query Op { a { a1 strictPeer { a1 } } x: a { a1 strictPeer { a1 } } as { a1 } ys: as { a1 } }`,
 }
 
 func genOracles(r *gen.Rand, base xeng.Oracle, log [][4]string, n int) []xeng.Oracle {
@@ -296,6 +298,24 @@ func RunFull(c *gen.Ctx, prop string, cfgs []xeng.Config, nops, perOp int, singl
 					plan = append(plan, planned{i, o})
 				}
 			}
+		}
+		if strings.Contains(q, "x: a { a1 strictPeer") {
+			// (the second position must be able to hold a nil: a non-null object field, not a non-null scalar)
+			for _, pr := range [][2]string{{"a.strictPeer", "x.strictPeer"}, {"x.strictPeer", "a.strictPeer"}, {"a.a1", "x.strictPeer"}} {
+				for _, first := range []string{"error", "panic", "null"} {
+					o := xeng.NewOracle()
+					o.Fields[pr[0]] = xeng.FieldPlan{O: first, Tag: "first"}
+					// the second failure is a nil without an error of its own, reported by the executor; it comes later
+					o.Fields[pr[1]] = xeng.FieldPlan{O: "null", Delay: 6}
+					plan = append(plan, planned{i, o})
+				}
+			}
+			// and list elements: a failing element of one list, a nil element at the same index of the other
+			o := xeng.NewOracle()
+			o.Fields["as.1.a1"] = xeng.FieldPlan{O: "error", Tag: "first"}
+			o.Elems["ys.1"] = "null"
+			o.Fields["ys"] = xeng.FieldPlan{Delay: 6}
+			plan = append(plan, planned{i, o})
 		}
 		if strings.Contains(q, "nodes { link {") {
 			o := xeng.NewOracle()
